@@ -32,10 +32,12 @@ extern "C" void vs_hook_cas(const volatile void *addr, unsigned long exchange, u
 // made as acquire loads / release stores, so that they are atomics to it (no report on the cursor itself) and carry the
 // happens-before edge the queue relies on; the functional variants (sched, schedp) run FastFlow's own code.
 static inline unsigned long verif_read(atomic_long_t *x, int line) { vs_point_r(line); unsigned long v = (unsigned long)__atomic_load_n(&x->counter, __ATOMIC_ACQUIRE); if (vs_hook_read) vs_hook_read(x, v, line); return v; }
-static inline void verif_set(atomic_long_t *x, unsigned long v, int line) { vs_point(line); __atomic_store_n(&x->counter, (long)v, __ATOMIC_RELEASE); if (vs_hook_set) vs_hook_set(x, v, line); }
+static inline void verif_set(atomic_long_t *x, unsigned long v, int line) { vs_point(line); __atomic_store_n(&x->counter, (long)v, __ATOMIC_RELEASE); if (vs_hook_set) vs_hook_set(x, v, line); vs_point(-line); }
 #else
 static inline unsigned long verif_read(atomic_long_t *x, int line) { vs_point_r(line); unsigned long v = atomic_long_read(x); verif_acq(x); if (vs_hook_read) vs_hook_read(x, v, line); return v; }
-static inline void verif_set(atomic_long_t *x, unsigned long v, int line) { vs_point(line); verif_rel(x); atomic_long_set(x, v); if (vs_hook_set) vs_hook_set(x, v, line); }
+// a second point right after the store: a thread can lose the processor between publishing and the plain code that follows
+// (invisible in a correct protocol, decisive when something is published too early)
+static inline void verif_set(atomic_long_t *x, unsigned long v, int line) { vs_point(line); verif_rel(x); atomic_long_set(x, v); if (vs_hook_set) vs_hook_set(x, v, line); vs_point(-line); }
 #endif
 static inline atom_t verif_cas(volatile atom_t *d, atom_t e, atom_t c, int line) { vs_point(line); verif_rel((const volatile void *)d); atom_t r = abstraction_cas(d, e, c); verif_acq((const volatile void *)d); if (vs_hook_cas) vs_hook_cas((const volatile void *)d, (unsigned long)e, (unsigned long)c, (unsigned long)r, line); return r; }
 #define atomic_long_read(x) verif_read((x), __LINE__)
